@@ -153,6 +153,101 @@ def stepOp (cfg : Cfg) (s : DS) (op : String) : DS × String :=
                  coff := if cfg.positioned then s.top else 0 }, "s:rec=0:delta=1:[]")
   else (s, "bad-op")
 
+
+/-! ### map scenarios (`mp` lines) -/
+
+structure ME where
+  key : Nat
+  off : Nat
+  pid : Nat
+  t : Nat
+  removed : Bool := false
+deriving Inhabited
+
+structure MS where
+  cur : List ME := []          -- server state, one entry per key
+  stream : List ME := []
+  top : Nat := 0
+  subscribed : Bool := false
+  vals : List (Nat × Tok) := []
+  coff : Nat := 0
+
+def mpPub (e : ME) : Pub Tok := { off := e.off, data := .pay e.pid, key := e.key, removed := e.removed }
+
+def insertSorted (e : ME) : List ME → List ME
+  | [] => [e]
+  | x :: xs => if e.off ≤ x.off then e :: x :: xs else x :: insertSorted e xs
+
+def mapClientRecv (cfg : Cfg) (vals : List (Nat × Tok)) (w : WPub Tok) (expect : Nat) : List (Nat × Tok) × String :=
+  let c := tokCodec cfg.tbl cfg.json
+  if w.removed then (Delta.erase vals w.key, "X" ++ toString w.off) else
+  let tok := (if w.delta then "D" else "F") ++ toString w.off
+  match MapClient.recv c { vals := vals } w with
+  | some (cl, t) => if t = .pay expect then (cl.vals, tok) else (Delta.insert vals w.key (.pay expect), tok ++ "!")
+  | none => (Delta.insert vals w.key (.pay expect), tok ++ "!")
+
+def mapFold (cfg : Cfg) : List (Nat × Tok) → List (WPub Tok) → List ME → List (Nat × Tok) × List String
+  | vals, w :: ws, e :: es =>
+    let (v1, tok) := mapClientRecv cfg vals w e.pid
+    let (v2, toks) := mapFold cfg v1 ws es
+    (v2, tok :: toks)
+  | vals, _, _ => (vals, [])
+
+def mpStep (cfg : Cfg) (s : MS) (op : String) : MS × String :=
+  let c := tokCodec cfg.tbl cfg.json
+  let body := String.ofList (op.toList.drop 1)
+  if op.startsWith "p" then
+    match body.splitOn "." with
+    | [a, k, b, d] =>
+      match a.toNat?, k.toNat?, b.toNat? with
+      | some pid, some key, some t =>
+        let prev := if d == "1" then (s.cur.find? (fun e => e.key == key)).map (fun (e : ME) => e.pid) else none
+        let e : ME := { key := key, off := s.top + 1, pid := pid, t := t }
+        let s1 := { s with cur := e :: s.cur.filter (fun x => x.key != key), stream := s.stream ++ [e], top := s.top + 1 }
+        if s.subscribed then
+          let (w, _) := liveStep c true (prev.map Tok.pay) (mpPub e)
+          let (vals, tok) := mapClientRecv cfg s.vals w pid
+          ({ s1 with vals := vals, coff := e.off }, "p:" ++ tok)
+        else (s1, "p:-")
+      | _, _, _ => (s, "bad-op")
+    | _ => (s, "bad-op")
+  else if op.startsWith "x" then
+    match body.toNat? with
+    | some key =>
+      if !(s.cur.any (fun e => e.key == key)) then (s, "x:suppressed") else
+      -- the removal publication carries the tags of the entry it removes
+      let t0 := ((s.cur.find? (fun e => e.key == key)).map (fun (e : ME) => e.t)).getD 0
+      let e : ME := { key := key, off := s.top + 1, pid := 0, t := t0, removed := true }
+      let s1 := { s with cur := s.cur.filter (fun x => x.key != key), stream := s.stream ++ [e], top := s.top + 1 }
+      if s.subscribed then
+        let (w, _) := liveStep c true none (mpPub e)
+        let (vals, tok) := mapClientRecv cfg s.vals w 0
+        ({ s1 with vals := vals, coff := e.off }, "x:" ++ tok)
+      else (s1, "x:-")
+    | none => (s, "bad-op")
+  else if op == "U" then
+    if s.subscribed then ({ s with subscribed := false }, "u") else (s, "u:not")
+  else if op == "S" then
+    if s.subscribed then (s, "s:already") else
+    let entries := (s.cur.filter (fun e => passes cfg e.t)).foldl (fun acc e => insertSorted e acc) []
+    let ws := entries.map (fun e => encodeFull c (mpPub e))
+    let (vals, toks) := mapFold cfg [] ws entries
+    ({ s with subscribed := true, vals := vals, coff := s.top }, s!"s:[{joinWith "+" toks}]:[]")
+  else if op == "R" then
+    if s.subscribed then (s, "r:already") else
+    let since := s.stream.filter (fun e => e.off > s.coff)
+    let kept := since.filter (fun e => passes cfg e.t)
+    let ws := makeRecoveredMap c (kept.map mpPub)
+    let (vals, toks) := mapFold cfg s.vals ws kept
+    ({ s with subscribed := true, vals := vals, coff := s.top }, s!"r:rec=1:[{joinWith "+" toks}]")
+  else (s, "bad-op")
+
+def runMp (cfg : Cfg) : MS → List String → List String → List String
+  | _, [], acc => acc.reverse
+  | s, op :: ops, acc =>
+    let (s1, out) := mpStep cfg s op
+    runMp cfg s1 ops (out :: acc)
+
 def parseTbl (m : String) : Nat → Nat → Nat :=
   let rows := (m.splitOn ".").map (fun r => r.toList.map (fun ch => ch.toNat - '0'.toNat))
   let arr := rows.toArray.map List.toArray
@@ -175,6 +270,11 @@ def step (line : String) : String :=
     let ops := if g "ops" == "" then [] else (g "ops").splitOn ","
     let s0 : DS := { medAlive := cfg.keep }
     joinWith " | " (runOps cfg s0 ops [])
+  | "mp" :: _ =>
+    let cfg : Cfg := { json := g "proto" == "json", positioned := true, histOn := true, hsize := 0, med := false,
+                       keep := false, cf := g "cf" == "1", sf := g "sf" == "1", tbl := parseTbl (g "M") }
+    let ops := if g "ops" == "" then [] else (g "ops").splitOn ","
+    joinWith " | " (runMp cfg {} ops [])
   | _ => "bad-op"
 
 def main : IO Unit := runPure step
